@@ -204,6 +204,17 @@ def violation_class(res):
     return res["violations"][0]["cls"]
 
 
+def has_class(res, cls):
+    return any(v["cls"] == cls for v in res.get("violations", []))
+
+
+def put_first(res, cls):
+    """Reorder the violations so that one of class `cls` comes first."""
+    vs = res.get("violations", [])
+    res["violations"] = [v for v in vs if v["cls"] == cls] + [v for v in vs if v["cls"] != cls]
+    return res
+
+
 def shrink_case(engine_name, case, res, budget_s=120):
     """Shrink a failing case while the same violation class persists."""
     mod = engine_module(engine_name)
@@ -214,7 +225,7 @@ def shrink_case(engine_name, case, res, budget_s=120):
         if REAL_PERF() - t0 > budget_s:
             return False
         r = run_case(engine_name, c)
-        return (not r.get("harness_error")) and violation_class(r) == cls
+        return (not r.get("harness_error")) and has_class(r, cls)
 
     if hasattr(mod, "shrink"):
         try:
@@ -284,9 +295,10 @@ def replay_file(path):
     exp = body["expect"]
     ok = (
         not res.get("harness_error")
-        and violation_class(res) == exp["cls"]
+        and has_class(res, exp["cls"])
         and (exp.get("digest") is None or res.get("digest") == exp["digest"])
     )
+    put_first(res, exp["cls"])
     return ok, res, body
 
 
